@@ -1,15 +1,8 @@
 """C06 — TOAST sampling writes the sampler's values at each tile's own pixel centres."""
 PROPERTY = "C06"
 LEVEL = "other"
-CONTRACT_MODULES = ["contracts.specfuns", "contracts.lemmas_desc", "contracts.pyramid", "contracts.parallel", "contracts.walk", "contracts.reducer", "contracts.lemmas_embed", "contracts.generator", "contracts.image", "contracts.merge", "contracts.pyramidio", "contracts.study", "contracts.multitan", "contracts.multiwcs", "contracts.toastsample", "contracts.toastgeom", "contracts.toastgen"]
-FUNCTIONS = [
-    "toasty.toast.toast_tile_get_coords",
-    "toasty.toast._level0_tile_get_coords",
-    "toasty.toast.ToastSampler.visit_callback",
-    "toasty.toast.sample_layer",
-    "toasty.toast.sample_layer_filtered",
-    "toasty.pyramid.PyramidIO.write_image",
-]
+CONTRACT_MODULES = ['contracts.specfuns', 'contracts.lemmas_desc', 'contracts.pyramid', 'contracts.parallel', 'contracts.walk', 'contracts.reducer', 'contracts.lemmas_embed', 'contracts.generator', 'contracts.image', 'contracts.merge', 'contracts.pyramidio', 'contracts.study', 'contracts.multitan', 'contracts.multiwcs', 'contracts.toastsample', 'contracts.toastgeom', 'contracts.toastgen', 'contracts.paths', 'contracts.datarange', 'contracts.builderc']
+FUNCTIONS = ['toasty.toast.toast_tile_get_coords', 'toasty.toast._level0_tile_get_coords', 'toasty.toast.ToastSampler.visit_callback', 'toasty.toast.sample_layer', 'toasty.toast.sample_layer_filtered', 'toasty.pyramid.PyramidIO.write_image', 'toasty.builder.Builder.toast_base']
 LEMMAS = []
 SLOW = ()
 TRUSTED_BASE = ["pyvc VC generator; z3/cvc5", "numpy contracts (pyvc/ndarray.py)", "compiled subsample (C05)",
